@@ -77,6 +77,12 @@ var baseTree = []treeSpec{
 	{rel: "tree/spool", dir: true, mode: os.ModeSticky | 0o777, mtime: 1600002440},
 	{rel: "tree/shared", dir: true, mode: os.ModeSetgid | 0o775, mtime: 1600002450},
 	{rel: "tree/shared/run", body: "run-as-owner", mode: os.ModeSetuid | os.ModeSetgid | 0o711, mtime: 1600002460},
+	// two files of one name in sibling directories (a glob over them into ONE directory would map both to one path)
+	{rel: "same", dir: true, mode: 0o755, mtime: 1600002600},
+	{rel: "same/site-a", dir: true, mode: 0o755, mtime: 1600002601},
+	{rel: "same/site-a/app.conf", body: "site=a\n", mode: 0o644, mtime: 1600002602},
+	{rel: "same/site-b", dir: true, mode: 0o755, mtime: 1600002603},
+	{rel: "same/site-b/app.conf", body: "site=b, longer\n", mode: 0o600, mtime: 1600002604},
 	// a tree laid out like a file-system root: it passes through directories other packages own (files/fs.go lists
 	// them, the logrotate ones at the end), which a tree entry must only imply
 	{rel: "fsroot", dir: true, mode: 0o755, mtime: 1600002500},
